@@ -274,15 +274,15 @@ impl StreamsState {
 
         if !rs.is_receiving() {
             // The stream was reset; its data is no longer wanted, but data beyond the final
-            // size is still a protocol error
+            // size, or a different final size, is still a protocol error
             let end = frame.offset + frame.data.len() as u64;
             if rs
                 .final_offset()
-                .is_some_and(|final_offset| end > final_offset)
+                .is_some_and(|size| end > size || (frame.fin && end != size))
             {
-                debug!("received data beyond the final size of a reset stream");
+                debug!("received data inconsistent with the final size of a reset stream");
                 return Err(TransportError::FINAL_SIZE_ERROR(
-                    "data beyond final size of reset stream",
+                    "inconsistent with final size of reset stream",
                 ));
             }
             trace!("dropping frame for finished stream");
